@@ -505,8 +505,8 @@ func ruleK4(c *Ctx) *RuleResult {
 	run := c.Method("", "Client", "run")
 	runInner := c.Method("", "Client", "runInner")
 	poolClose := c.Method("", "clientRoutinePool", "close")
-	if outErr == nil || run == nil || runInner == nil || poolClose == nil {
-		r.undecided("Client.outErr / run / runInner / clientRoutinePool.close not found")
+	if outErr == nil || run == nil || poolClose == nil {
+		r.undecided("Client.outErr / run / clientRoutinePool.close not found")
 		return r
 	}
 	// capacity
@@ -552,17 +552,57 @@ func ruleK4(c *Ctx) *RuleResult {
 			}
 		})
 	}
-	if len(sends) == 1 && sends[0].Parent() == run && !inLoop(sends[0]) {
-		r.ok("Client.run|single-send", c.Pos(sends[0].Pos()), FuncName(run), "exactly one send on the result channel, outside any loop, in Client.run", "1 send site")
-	} else {
-		r.fail("Client.run|single-send", c.Pos(run.Pos()), FuncName(run), "exactly one send on the result channel, outside any loop, in Client.run", fmt.Sprintf("%d send sites", len(sends)))
+	// exactly one send per run: one site, or several sites in Client.run no two of which lie on one path
+	oneEach := len(sends) >= 1
+	for _, a := range sends {
+		if a.Parent() != run || inLoop(a) {
+			oneEach = false
+		}
+		for _, b := range sends {
+			if a != b && instrReaches(a, b) {
+				oneEach = false
+			}
+		}
 	}
-	// the sent value is runInner's result
-	if len(sends) == 1 {
-		if call, ok := sends[0].X.(*ssa.Call); ok && call.Call.StaticCallee() == runInner {
-			r.ok("Client.run|sends-runInner", c.Pos(sends[0].Pos()), FuncName(run), "the value sent is the result of runInner (first fatal error, EOS, or termination)", "c.outErr <- c.runInner()")
+	if oneEach {
+		// every path of run sends: no return without a send
+		bad := pathAvoidingFromBlock(c, run, run.Blocks[0], func(x ssa.Instruction) bool { _, ok := x.(*ssa.Send); return ok }, func(x ssa.Instruction) bool { _, ok := x.(*ssa.Return); return ok })
+		if bad != nil {
+			oneEach = false
+		}
+	}
+	if oneEach {
+		r.ok("Client.run|single-send", c.Pos(sends[0].Pos()), FuncName(run), "exactly one send on the result channel on every path of Client.run, outside any loop", fmt.Sprintf("%d send site(s), mutually exclusive", len(sends)))
+	} else {
+		r.fail("Client.run|single-send", c.Pos(run.Pos()), FuncName(run), "exactly one send on the result channel on every path of Client.run, outside any loop", fmt.Sprintf("%d send sites, not one per path", len(sends)))
+	}
+	// join before send: the value sent is the result of a function every return of which follows rp.close(),
+	// or a call of rp.close() (not a deferred one: it would run after the send) dominates the send itself
+	for i, sd := range sends {
+		key := "Client.run|sends-runInner"
+		if i > 0 {
+			key = fmt.Sprintf("Client.run|sends-runInner#%d", i+1)
+		}
+		what := "the pool is joined (rp.close() returned) before the result is sent"
+		if call, ok := sd.X.(*ssa.Call); ok && call.Call.StaticCallee() != nil && InRootPkg(call.Call.StaticCallee()) {
+			if runInner == nil {
+				runInner = call.Call.StaticCallee()
+			}
+			if call.Call.StaticCallee() == runInner {
+				r.ok(key, c.Pos(sd.Pos()), FuncName(run), what, "the value sent is the result of "+FuncName(runInner)+", whose returns are checked below")
+				continue
+			}
+		}
+		dominated := false
+		allInstrs(sd.Parent(), func(x ssa.Instruction) {
+			if call, ok := x.(*ssa.Call); ok && call.Call.StaticCallee() == poolClose && instrDominates(x, sd) {
+				dominated = true
+			}
+		})
+		if dominated {
+			r.ok(key, c.Pos(sd.Pos()), FuncName(sd.Parent()), what, "a call of clientRoutinePool.close dominates the send")
 		} else {
-			r.fail("Client.run|sends-runInner", c.Pos(sends[0].Pos()), FuncName(run), "the value sent is the result of runInner", "sent value is "+sends[0].X.String())
+			r.fail(key, c.Pos(sd.Pos()), FuncName(sd.Parent()), what, "no completed rp.close() precedes this send (a deferred close runs after it): Wait() yields while pool goroutines are still running and user callbacks still fire")
 		}
 	}
 	// pool close: cancel before wait
@@ -638,6 +678,9 @@ func ruleK4(c *Ctx) *RuleResult {
 	}
 	// runInner: every return is dominated by a call of pool close
 	nret := 0
+	if runInner == nil {
+		return r
+	}
 	allInstrs(runInner, func(in ssa.Instruction) {
 		ret, ok := in.(*ssa.Return)
 		if !ok {
